@@ -122,19 +122,58 @@ impl Write for Rec {
     }
 }
 
+/// Forwards every `write_all` to the real sink and counts the bytes of the calls that succeeded:
+/// "the number of bytes accepted so far", observed independently of the sink's own position.
+struct Tap<'a, S: Write + ?Sized> {
+    inner: &'a mut S,
+    ok_bytes: usize,
+    failed_calls: u32,
+}
+
+impl<'a, S: Write + ?Sized> Tap<'a, S> {
+    fn new(inner: &'a mut S) -> Self {
+        Tap { inner, ok_bytes: 0, failed_calls: 0 }
+    }
+}
+
+impl<'a, S: Write + ?Sized> Write for Tap<'a, S> {
+    type Error = S::Error;
+    fn write_all(&mut self, buf: &[u8]) -> Result<(), Self::Error> {
+        match self.inner.write_all(buf) {
+            Ok(()) => {
+                self.ok_bytes += buf.len();
+                Ok(())
+            }
+            Err(e) => {
+                self.failed_calls += 1;
+                Err(e)
+            }
+        }
+    }
+}
+
 struct Outcome<'a> {
     sink: Sink,
     cap: usize,
     result: Result<(), ErrInfo>,
     accepted: usize,
+    /// bytes of the write_all calls the sink answered with Ok (None for the io adapter, which may take part of a chunk)
+    tapped: Option<usize>,
+    /// a non-retryable device error was injected (io adapter only)
+    device_error: bool,
     /// the sink's bytes `0 .. min(cap, something)`: at least `accepted` bytes long
     content: &'a [u8],
 }
 
-fn judge(o: &Outcome, reference: &[u8], cuts: &[usize]) -> Result<(), Violation> {
+fn judge(o: &Outcome, reference: &[u8]) -> Result<(), Violation> {
     let n = reference.len();
     let k = o.sink.name();
     let c = o.cap;
+    if let Some(t) = o.tapped {
+        if o.accepted != t {
+            fail!("position_accounting", "{k} cap={c}: position is {} but the sink accepted {t} bytes (sum of its successful write_all calls)", o.accepted);
+        }
+    }
     match &o.result {
         Ok(()) => {
             if n > c {
@@ -154,7 +193,7 @@ fn judge(o: &Outcome, reference: &[u8], cuts: &[usize]) -> Result<(), Violation>
             }
         }
         Err(e) => {
-            if n <= c {
+            if n <= c && !o.device_error {
                 fail!("fit_iff", "{k} cap={c}: encoding of {n} bytes fits but returned an error ({})", e.msg);
             }
             if !e.is_write {
@@ -163,15 +202,8 @@ fn judge(o: &Outcome, reference: &[u8], cuts: &[usize]) -> Result<(), Violation>
             if o.accepted > c {
                 fail!("position_accounting", "{k} cap={c}: position/accepted {} exceeds the capacity", o.accepted);
             }
-            if o.content.len() < o.accepted || o.content[..o.accepted] != reference[..o.accepted] {
+            if o.accepted > n || o.content.len() < o.accepted || o.content[..o.accepted] != reference[..o.accepted] {
                 fail!("prefix_left", "{k} cap={c}: the {} accepted bytes are not a prefix of the correct encoding", o.accepted);
-            }
-            if o.sink != Sink::IoWriter {
-                // shipped bounded sinks are all-or-nothing per internal write: the position is the sum of the leading writes that fit
-                let want = cuts.iter().copied().take_while(|x| *x <= c).last().unwrap_or(0);
-                if o.accepted != want {
-                    fail!("position_accounting", "{k} cap={c}: position {} but the internal writes that fit sum to {want}", o.accepted);
-                }
             }
         }
     }
@@ -235,13 +267,15 @@ pub fn array_cap_supported(cap: usize) -> bool {
     cap <= 72 || [96, 127, 128, 129, 160, 200, 254, 255, 256, 257, 258, 259, 260, 261, 262, 300, 320, 321, 512, 1000, 1024, 4096].contains(&cap)
 }
 
-/// Deterministic io-sink lane for (io_seed, cap): short writes and EINTR; no fatal errors.
-fn io_lane(io_seed: u64, cap: usize) -> (Vec<Step>, FullMode) {
+/// Deterministic io-sink lane for (io_seed, cap): short writes, EINTR and (one run in five) one non-retryable device error.
+fn io_lane(io_seed: u64, cap: usize) -> (Vec<Step>, FullMode, bool) {
     let mut r = Rng::new(io_seed ^ (cap as u64).wrapping_mul(0x9E37_79B9));
     let mode = if r.chance(1, 2) { FullMode::Error } else { FullMode::Zero };
     let style = r.below(4);
     let n = r.usize_in(0, 24);
-    let lane = (0..n)
+    // one run in five: the device fails once with a non-retryable error somewhere in the middle
+    let fatal = r.chance(1, 5);
+    let mut lane: Vec<Step> = (0..n)
         .map(|_| match style {
             0 => Step::Xfer(u32::MAX),
             1 => Step::Xfer(1 + r.below(3) as u32),
@@ -261,7 +295,11 @@ fn io_lane(io_seed: u64, cap: usize) -> (Vec<Step>, FullMode) {
             }
         })
         .collect();
-    (lane, mode)
+    if fatal {
+        let at = r.below(lane.len() as u64 + 1) as usize;
+        lane.insert(at, Step::Err(*r.pick(&[ErrKind::TimedOut, ErrKind::WouldBlock, ErrKind::Other])));
+    }
+    (lane, mode, fatal)
 }
 
 fn run_encode(values: &[ValSpec], only_sink: Option<Sink>, only_cap: Option<u32>, io_seed: u64, obs: &Rc<RefCell<Obs>>) -> Result<(), Violation> {
@@ -334,58 +372,74 @@ fn run_encode(values: &[ValSpec], only_sink: Option<Sink>, only_cap: Option<u32>
             match sink {
                 Sink::Slice => {
                     let mut backing = guarded(c);
-                    let (result, accepted) = {
+                    let (result, accepted, tapped) = {
                         let mut sl: &mut [u8] = &mut backing[GUARD..GUARD + c];
-                        let r = encode_all(values, &mut sl);
-                        (r, c - sl.len())
+                        let (r, t) = {
+                            let mut tap = Tap::new(&mut sl);
+                            let r = encode_all(values, &mut tap);
+                            (r, tap.ok_bytes)
+                        };
+                        (r, c - sl.len(), t)
                     };
                     canaries_ok(&backing, c, sink.name())?;
-                    judge(&Outcome { sink, cap: c, result, accepted, content: &backing[GUARD..GUARD + c] }, &reference, &cuts)?;
+                    judge(&Outcome { sink, cap: c, result, accepted, tapped: Some(tapped), device_error: false, content: &backing[GUARD..GUARD + c] }, &reference)?;
                 }
                 Sink::SliceCursor => {
                     let mut backing = guarded(c);
-                    let (result, accepted) = {
+                    let (result, accepted, tapped) = {
                         let mut cur = Cursor::new(&mut backing[GUARD..GUARD + c]);
-                        let r = encode_all(values, &mut cur);
-                        (r, cur.position())
+                        let (r, t) = {
+                            let mut tap = Tap::new(&mut cur);
+                            let r = encode_all(values, &mut tap);
+                            (r, tap.ok_bytes)
+                        };
+                        (r, cur.position(), t)
                     };
                     canaries_ok(&backing, c, sink.name())?;
-                    judge(&Outcome { sink, cap: c, result, accepted, content: &backing[GUARD..GUARD + c] }, &reference, &cuts)?;
+                    judge(&Outcome { sink, cap: c, result, accepted, tapped: Some(tapped), device_error: false, content: &backing[GUARD..GUARD + c] }, &reference)?;
                 }
                 Sink::ArrayCursor => {
                     let mut f = |w: &mut dyn ArrCur| {
-                        let r = encode_all(values, &mut *w);
-                        (r, w.pos(), w.bytes().to_vec())
+                        let (r, t) = {
+                            let mut tap = Tap::new(&mut *w);
+                            let r = encode_all(values, &mut tap);
+                            (r, tap.ok_bytes)
+                        };
+                        (r, w.pos(), t, w.bytes().to_vec())
                     };
-                    if let Some((result, accepted, bytes)) = array_sink(c, &mut f) {
-                        judge(&Outcome { sink, cap: c, result, accepted, content: &bytes }, &reference, &cuts)?;
+                    if let Some((result, accepted, tapped, bytes)) = array_sink(c, &mut f) {
+                        judge(&Outcome { sink, cap: c, result, accepted, tapped: Some(tapped), device_error: false, content: &bytes }, &reference)?;
                     }
-                    // and the monomorphic path for two fixed sizes
+                    // and the monomorphic path (no dyn, no tap) for two fixed sizes
                     if c == 16 {
                         let mut cur = Cursor::new([PATTERN; 16]);
                         let result = encode_all(values, &mut cur);
                         let accepted = cur.position();
-                        judge(&Outcome { sink, cap: c, result, accepted, content: &cur.get_ref()[..] }, &reference, &cuts)?;
+                        judge(&Outcome { sink, cap: c, result, accepted, tapped: None, device_error: false, content: &cur.get_ref()[..] }, &reference)?;
                     }
                     if c == 64 {
                         let mut cur = Cursor::new([PATTERN; 64]);
                         let result = encode_all(values, &mut cur);
                         let accepted = cur.position();
-                        judge(&Outcome { sink, cap: c, result, accepted, content: &cur.get_ref()[..] }, &reference, &cuts)?;
+                        judge(&Outcome { sink, cap: c, result, accepted, tapped: None, device_error: false, content: &cur.get_ref()[..] }, &reference)?;
                     }
                 }
                 Sink::BoxCursor => {
                     let mut cur = Cursor::new(vec![PATTERN; c].into_boxed_slice());
-                    let result = encode_all(values, &mut cur);
+                    let (result, tapped) = {
+                        let mut tap = Tap::new(&mut cur);
+                        let r = encode_all(values, &mut tap);
+                        (r, tap.ok_bytes)
+                    };
                     let accepted = cur.position();
                     let inner = cur.into_inner();
                     if inner.len() != c {
                         fail!("no_overrun", "box_cursor cap={c}: the boxed slice changed length to {}", inner.len());
                     }
-                    judge(&Outcome { sink, cap: c, result, accepted, content: &inner }, &reference, &cuts)?;
+                    judge(&Outcome { sink, cap: c, result, accepted, tapped: Some(tapped), device_error: false, content: &inner }, &reference)?;
                 }
                 Sink::VecSink => {
-                    // growable: never fails; pre-existing content (c bytes) must be kept and the encoding appended
+                    // growable: never fails; pre-existing content must be kept and the encoding appended
                     let mut v = vec![PATTERN; c.min(64)];
                     let pre = v.len();
                     let result = encode_all(values, &mut v);
@@ -397,10 +451,11 @@ fn run_encode(values: &[ValSpec], only_sink: Option<Sink>, only_cap: Option<u32>
                     }
                 }
                 Sink::IoWriter => {
-                    let (lane, mode) = io_lane(io_seed, c);
+                    let (lane, mode, fatal) = io_lane(io_seed, c);
                     let budget = lane.len() as u64 + 2 * cuts.len() as u64 + n as u64 + 16;
                     let core = SinkCore::new(lane, Some(c), budget, obs.clone());
                     core.borrow_mut().full_mode = mode;
+                    core.borrow_mut().allow_fatal = fatal;
                     let mut w = Writer::new(SimSink(core.clone()));
                     let result = encode_all(values, &mut w);
                     let core = core.borrow();
@@ -410,17 +465,18 @@ fn run_encode(values: &[ValSpec], only_sink: Option<Sink>, only_cap: Option<u32>
                     if core.data.len() > c {
                         fail!("no_overrun", "io_writer cap={c}: the device holds {} bytes", core.data.len());
                     }
-                    let had_faults = core.served_err[ErrKind::Interrupted.idx()] > 0;
+                    let device_error = core.fatal_served.is_some();
+                    let had_eintr = core.served_err[ErrKind::Interrupted.idx()] > 0;
                     if let Err(e) = &result {
-                        if n <= c {
+                        if n <= c && !device_error {
                             fail!(
-                                if had_faults { "eintr_transparent" } else { "short_write_safe" },
+                                if had_eintr { "eintr_transparent" } else { "short_write_safe" },
                                 "io_writer cap={c}: {n} bytes fit but encoding failed ({}) under short writes / EINTR",
                                 e.msg
                             );
                         }
                     }
-                    judge(&Outcome { sink, cap: c, result, accepted: core.data.len(), content: &core.data }, &reference, &cuts)?;
+                    judge(&Outcome { sink, cap: c, result, accepted: core.data.len(), tapped: None, device_error, content: &core.data }, &reference)?;
                 }
             }
         }
